@@ -514,6 +514,10 @@ def compare(op, a, b):
             return ite(a.c, compare(op, a.a, b), compare(op, a.b, b))
         if isinstance(b, Ite) and isinstance(a, Const):
             return ite(b.c, compare(op, a, b.a), compare(op, a, b.b))
+    if op in ("lt", "le", "gt", "ge") and isinstance(a, Ite) and isinstance(b, Const) and isinstance(a.a, (Const, Ite)) \
+            and isinstance(a.b, (Const, Ite)):
+        # a conditional between constants compared with a constant: decide each alternative
+        return ite(a.c, compare(op, a.a, b), compare(op, a.b, b))
     # boolean-valued term compared with a bool constant
     if op in ("is", "isnot", "eq", "ne"):
         for x, y in ((a, b), (b, a)):
